@@ -33,3 +33,33 @@ package grpcsync
 // the PubSub itself (frame only; C31's domain, not verified here)
 //@ func (*PubSub).Publish
 //@   trusted
+
+// ---- C31: callback serializer ---------------------------------------------------------------------
+//
+// The queue is buffer.Unbounded (contracts in internal/buffer: FIFO steps, Put
+// refused exactly after Close, end-of-stream only after everything was read).
+
+// ScheduleOr: one Put; the failure hook runs (inline, once) exactly when the
+// queue refused the callback, i.e. after shutdown began; it never runs for an
+// accepted callback.
+//@ func (*CallbackSerializer).ScheduleOr
+//@   prop C31
+//@   opt purecalls onFailure
+//@   requires cs != nil && cs.callbacks != nil
+//@   assert at call Put#1 arg0 == cs.callbacks
+//@   assert at call onFailure#1 ncalls("Put") == 1 && lastret("Put") != 0
+//@   assert at return end ncalls("Put") == 1 && (ncalls("onFailure") == 1) == (lastret("Put") != 0) && ncalls("onFailure") <= 1
+
+// run: every value taken from the queue's channel is followed by exactly one
+// Load (which moves the next queued callback forward) and exactly one call of
+// that callback with the serializer's context, in that order, one at a time;
+// done is closed when the function leaves, i.e. after the channel was closed
+// and drained.
+//@ func (*CallbackSerializer).run
+//@   prop C31
+//@   opt purecalls cb
+//@   requires cs != nil && cs.callbacks != nil
+//@   loop 1 invariant ncalls("Load") == ncalls("cb") && ncalls("close") == 0
+//@   assert at call Load#1 arg0 == cs.callbacks && ncalls("Load") == ncalls("cb")
+//@   assert at call cb#1 arg0 == ctx && ncalls("Load") == ncalls("cb") + 1
+//@   assert at call close#1 arg0 == cs.done && ncalls("Load") == ncalls("cb")
